@@ -8,6 +8,7 @@ import OrsoVerif.Lemmas.GroupByX
 import OrsoVerif.Model.GroupByEq
 import OrsoVerif.Lemmas.GroupByEq
 import OrsoVerif.Lemmas.GroupByCodeEq
+import OrsoVerif.Lemmas.GroupBySession
 /-!
 # C12 — GroupBy aggregates equal a reference partition-and-fold
 
@@ -974,6 +975,47 @@ example :
         { columns := ["v", "k"], rows := [[.none, .str "a"], [.int 5, .str "a"]] }
         false [["k"]] [[1]] [(0, .aggregate [(.count, "v")])]
       = [.ok (["COUNT(v)", "k"], [[.int 2, .str "a"]])] := by
+  decide
+
+/-- **The key columns of a `GroupBy` are fixed when it is created** (`GroupBy.__init__`,
+group_by.py:66-72: `self._columns = tuple(columns)` / `[columns]` — a new object in every branch, the
+flag `Gen.GroupByCode.columnsCopied` read from the working tree).  A `GroupBy` is evaluated lazily: `_map`
+resolves the positions of `self._columns` when a call is made.  For every frame (lazily backed or
+materialised), any number of objects `df.group_by(objs[g])` and every session — calls (`aggregate` with
+any request lists, `groups()`) interleaved in any way with the caller editing, in place, the very lists it
+handed to `group_by` (append, clear, sort, replace an element, reuse for the next grouping) — every call
+returns the partition-and-fold table of the frame over the key columns AS GIVEN AT CREATION, laid out as
+labels then those key columns.  ("all one- and multi-column keys"; with `self._columns = columns` the
+flag is false and the statement is false: `aliased_keys_follow_the_caller` below; the seeded change
+C12-w8s2.) -/
+theorem keys_fixed_at_creation :
+    Gen.GroupByCode.columnsCopied = true
+    ∧ ∀ (fr : Frame) (lazy : Bool) (objs : List (List String)) (idxs : List (List Nat)) (evs : List Ev),
+      (∀ c ∈ callsOf evs, (objs.getD c.1 []).mapM (fun n => index n fr.columns) = some (idxs.getD c.1 [])) →
+      runSessionF source Gen.GroupByCode.columnsCopied fr lazy objs evs =
+        (callsOf evs).map fun c =>
+          match c.2 with
+          | .aggregate reqs => toExcept (run fr (objs.getD c.1 []) reqs)
+          | .groups => toExcept (runGroups fr (objs.getD c.1 [])) := by
+  have hflag : Gen.GroupByCode.columnsCopied = true := by decide
+  refine ⟨hflag, fun fr lazy objs idxs evs hidx => ?_⟩
+  rw [hflag, runSessionF_copied source fr lazy objs idxs evs hidx]
+  exact source_calls_spec fr lazy objs idxs (callsOf evs) hidx
+
+/-- `self._columns = columns` (the caller's own list kept, the seeded change C12-w8s2): the caller creates
+`g = df.group_by(keys)` with `keys = ["k"]`, appends `"j"` to `keys` for the next level, and `g.count()`
+groups by both columns — two rows where the keys given at creation make one; with the copy the same
+session gives the one row. -/
+example :
+    runSessionF repaired false { columns := ["k", "j"], rows := [[.int 1, .str "a"], [.int 1, .str "b"]] } false [["k"]]
+        [.edit 0 ["k", "j"], .call 0 (.aggregate [(.count, "*")])]
+      = [.ok (["COUNT(*)", "k", "j"], [[.int 1, .int 1, .str "a"], [.int 1, .int 1, .str "b"]])]
+    ∧ runSessionF repaired true { columns := ["k", "j"], rows := [[.int 1, .str "a"], [.int 1, .str "b"]] } false [["k"]]
+        [.edit 0 ["k", "j"], .call 0 (.aggregate [(.count, "*")])]
+      = [.ok (["COUNT(*)", "k"], [[.int 2, .int 1]])]
+    ∧ runSessionF repaired false { columns := ["k", "j"], rows := [[.int 1, .str "a"]] } false [["k"]]
+        [.call 0 .groups, .edit 0 ["nope"], .call 0 .groups]
+      = [.ok (["k"], [[.int 1]]), .error "ValueError"] := by
   decide
 
 /-- The repaired program passes every condition (the conditions are satisfiable). -/
